@@ -2265,3 +2265,113 @@ func (w *peerWorkManager) QueryContext(ctx context.Context, requests []*Request,
 mut("quiet-new-fresh-buffer-send", ["C17", "C12"], [], [], new_files=[("query/zz_qctx.go", _QCTX % (", 1", ""))])
 mut("c17-new-send-unbuffered", ["C17"], [], ["C17.B1"], new_files=[("query/zz_qctx.go", _QCTX % ("", ""))])
 mut("c17-new-send-after-handover", ["C17"], [], ["C17.B1"], new_files=[("query/zz_qctx.go", _QCTX % (", 1", "\n\t\terrChan <- nil"))])
+
+# ---- a bug fix that guards the tip update (campaign Y): quiet form and a broken twin ----
+_TIP_DECL = ('''		finalHash   *chainhash.Hash
+		finalHeight int32
+''', '''		finalHash   *chainhash.Hash
+		finalHeight int32
+		zzTip       *chainhash.Hash
+''')
+_TIP_TAIL = ('''	b.headerTip = uint32(finalHeight)
+	b.headerTipHash = *finalHash
+''', '''	if zzTip != nil {
+		b.headerTip = uint32(finalHeight)
+		b.headerTipHash = *zzTip
+	}
+''')
+mut("quiet-tip-update-guarded-by-set-flag", ["C04", "C18", "C01"], [(BM, _TIP_DECL[0], _TIP_DECL[1]), (BM, "			finalHeight = node.Height\n", "			finalHeight = node.Height\n			zzTip = &blockHash\n"), (BM, _TIP_TAIL[0], _TIP_TAIL[1])], [])
+mut("c04-tip-update-guarded-by-unset-flag", ["C04"], [(BM, _TIP_DECL[0], _TIP_DECL[1]), (BM, "			if nodeHash.IsEqual(b.nextCheckpoint.Hash) {\n", "			if nodeHash.IsEqual(b.nextCheckpoint.Hash) {\n				zzTip = &blockHash\n"), (BM, _TIP_TAIL[0], _TIP_TAIL[1])], ["C04.O1"])
+
+# ---- rules added after seed batch 11, lock order, Stop without Start ----
+mut("c07-prefix-cache-array", ["C07"], [("headerfs/index.go", '''			currentSubPrefix []byte
+		)
+''', '''			currentSubPrefix [numSubBucketBytes]byte
+		)
+'''), ("headerfs/index.go", '''			prefix := header.hash[0:numSubBucketBytes]
+			if !bytes.Equal(currentSubPrefix, prefix) {
+				subBucket = rootBucket.NestedReadWriteBucket(
+					prefix,
+				)''', '''			prefix := [numSubBucketBytes]byte(header.hash[:numSubBucketBytes])
+			if prefix != currentSubPrefix {
+				subBucket = rootBucket.NestedReadWriteBucket(
+					prefix[:],
+				)'''), ("headerfs/index.go", '''				currentSubPrefix = append(
+					currentSubPrefix[:0], prefix...,
+				)
+''', '''				currentSubPrefix = prefix
+''')], ["C07.V5"])
+mut("c09-next-height-read-before-updates", ["C09"], [(RS, '''		case false:
+
+			// Apply all queued filter updates.
+''', '''		case false:
+			nextHeight := rs.curStamp.Height + 1
+
+			// Apply all queued filter updates.
+'''), (RS, '''			nextHeight := rs.curStamp.Height + 1
+			if nextHeight > bestBlock.Height {''', '''			if nextHeight > bestBlock.Height {''')], ["C09.O2"])
+mut("c13-checkpoints-below-tip-unchecked", ["C13", "C03"], [(BM, '''			height := uint32((i + 1) * wire.CFCheckptInterval)
+			err := chainsync.ValidateCFHeader(''', '''			height := uint32((i + 1) * wire.CFCheckptInterval)
+			if height <= zzTip {
+				continue
+			}
+			err := chainsync.ValidateCFHeader('''), (BM, '''	// First check the served checkpoints against the hardcoded ones.
+	for peer, cp := range checkpoints {''', '''	_, zzTip, _ := store.ChainTip()
+	// First check the served checkpoints against the hardcoded ones.
+	for peer, cp := range checkpoints {''')], ["C13.V2", "C03.O5"])
+mut("c15-children-of-failed-skipped", ["C15"], [(PB, '''		err := b.cfg.Broadcast(tx)
+''', '''		if len(tx.TxIn) > 0 && zzFailed[tx.TxIn[0].PreviousOutPoint.Hash] {
+			zzFailed[tx.TxHash()] = true
+			continue
+		}
+		err := b.cfg.Broadcast(tx)
+'''), (PB, '''	sortedTxs := wtxmgr.DependencySort(txs)
+''', '''	zzFailed := map[chainhash.Hash]bool{}
+	sortedTxs := wtxmgr.DependencySort(txs)
+''')], ["C15.V3"])
+mut("c19-disconnect-deferred", ["C19", "C09"], [(BM, '''		// Now we send the block disconnected notifications.
+		b.onBlockDisconnected(''', '''		// Now we send the block disconnected notifications.
+		defer b.onBlockDisconnected(''')], ["C19.O6"])
+mut("c02-shorter-branch-refused", ["C02"], [(BM, '''			// Check the sanity of the new branch. If any of the
+			// blocks don't pass sanity checks, disconnect the
+''', '''			if uint32(numHeaders-i) < uint32(prevNode.Height)-backHeight {
+				hmsg.peer.Disconnect()
+				return
+			}
+
+			// Check the sanity of the new branch. If any of the
+			// blocks don't pass sanity checks, disconnect the
+''')], ["C02.O1"])
+mut("c04-sync-peer-lock-across-rollback", ["C04", "C17"], [(BM, '''			b.syncPeer = hmsg.peer
+			b.syncPeerMutex.Unlock()
+			err = b.rollBackToHeight(backHeight)
+''', '''			b.syncPeer = hmsg.peer
+			err = b.rollBackToHeight(backHeight)
+			b.syncPeerMutex.Unlock()
+''')], ["C04.P1", "C17.P3"])
+mut("c03-first-sane-list-returned", ["C03"], [(BM, '''	heightDiff, err = checkCFCheckptSanity(checkpoints, store)
+	if err != nil {
+		return nil, err
+	}
+
+	// If we got -1, we have full agreement between all peers and the store.
+	if heightDiff == -1 {
+		// Take the first peer's checkpoint list and return it.
+		for _, checkpts := range checkpoints {
+			return checkpts, nil
+		}
+	}
+''', '''	for peer, checkpts := range checkpoints {
+		heightDiff, err = checkCFCheckptSanity(
+			map[string][]*chainhash.Hash{peer: checkpts}, store,
+		)
+		if err != nil {
+			return nil, err
+		}
+		if heightDiff == -1 {
+			return checkpts, nil
+		}
+	}
+''')], ["C03.G6"])
+mut("c04-locator-relocks", ["C04", "C17"], [("headerfs/store.go", "		blockHeader, err := h.readHeader(height)\n		if err != nil {\n			return locator, err\n		}\n		headerHash := blockHeader.BlockHash()", "		blockHeader, err := h.FetchHeaderByHeight(height)\n		if err != nil {\n			return locator, err\n		}\n		headerHash := blockHeader.BlockHash()")], ["C04.P1", "C17.P3"])
+mut("c17-scanner-stop-waits-without-start", ["C17"], [(US, "	if atomic.LoadUint32(&s.started) != 0 {\n	batchShutdown:", "	{\n	batchShutdown:")], ["C17.S2"])
